@@ -175,6 +175,29 @@ def judge_factory(case):
     return []
 
 
+def order_cases():
+    """two runs in ONE process, the first decorated, the second under the no-ANSI switch (and the reverse): whatever the first
+    run left behind in the process, the second obeys its own switches"""
+    for variant in VARIANTS[1:]:
+        for verb in ("-v", "-vvv"):
+            for first, second in (("--ansi", "--no-ansi"), ("--no-ansi", "--ansi")):
+                for tty in (False, True):
+                    yield {"order": True, "variant": variant, "verb": verb, "first": first, "second": second, "tty": tty}
+
+
+def judge_order(case):
+    execute(["solo", case["verb"], case["first"]], case["variant"], False, case["tty"])
+    obs = execute(["solo", case["verb"], case["second"]], case["variant"], False, case["tty"])
+    text = obs["out"] + obs["err"]
+    if case["second"] == "--no-ansi" and "\x1b" in text:
+        return [("noansi:escape:after-decorated-run", "no-ANSI switch: the report of a raising handler contains escape sequences when a decorated "
+                 "run of the same command came before it in the process", "no ESC", text[:400])]
+    if case["second"] == "--ansi" and "\x1b[" not in text:
+        return [("ansi:plain:after-undecorated-run", "ANSI switch: nothing is decorated when an undecorated run of the same command came before it "
+                 "in the process", "SGR sequences", text[:400])]
+    return []
+
+
 def redraw_cases():
     """command `redraw [items...]` x ANSI switches (alone, with another switch on either side, behind '--') x pipe-like / terminal-like streams"""
     sets = [[], ["--no-ansi"], ["--ansi"], ["-v", "--no-ansi"], ["--no-ansi", "-n"], ["x", "--no-ansi"], ["--no-ansi", "x"],
@@ -641,6 +664,9 @@ def replay(case):
         except RuntimeError as e:
             return report.viol("baseline:reference-run-broken", str(e), case)
         return None
+    if case.get("order"):
+        r = judge_order(case)
+        return report.viol(r[0][0], r[0][1], case, r[0][2], r[0][3]) if r else None
     if case.get("factory"):
         r = judge_factory(case)
         return report.viol(r[0][0], r[0][1], case, r[0][2], r[0][3]) if r else None
@@ -712,6 +738,14 @@ def main():
     rep.part("failing-handler-factory", cases=nfac, what="version / help switches behind a command whose handler is configured as a factory that "
              "raises: status 0 and the same version text / the command's help page (the handler is not needed)")
     evals += nfac
+    nord = 0
+    for c in order_cases():
+        nord += 1
+        for sig, what, exp, got in judge_order(c):
+            rep.violation(report.viol(sig, what + " | %s then %s at %s, handler %s" % (c["first"], c["second"], c["verb"], c["variant"]), c, exp, got))
+    rep.part("two-runs-in-one-process", cases=nord, what="a raising handler run with --ansi and then with --no-ansi (and the reverse) in the same "
+             "process, at -v and -vvv, on pipe-like and terminal-like streams: the second run obeys its own switch")
+    evals += 2 * nord
     rep.set("evaluations", evals)
     rep.set("distinct_nontrivial", len(keys))
     rep.set("skipped_v_before_positional", counters.pop("skipped_v_before_positional", 0))
